@@ -75,7 +75,7 @@ class Gen:
             if k == "Md":
                 return C["Md"](self.gen("Dep"))
             if k == "Rp":
-                return C["Rp"](self.gen("Str"), r.choice([100, 101]))
+                return C["Rp"](self.gen("Str"), r.choice([100, 101, 102]))
             if k == "Ob":
                 return C["Ob"](r.choice([200, 201]))
             return C["El"](self.pick("Name", NAMES), r.random() < 0.5, self.gen("AttrList"), self.gen("NodeList", depth - 1))
@@ -84,6 +84,10 @@ class Gen:
             return mk_list("NodeList", [self.gen("Node", depth) for _ in range(n)])
         if sort == "St":
             return C["St"](self.gen("Str"), r.random() < 0.5, r.random() < 0.5)
+        if sort == "AddArg":
+            return C[r.choice(["APlain", "AHtml", "AObj"])](self.gen("Str"))
+        if sort == "DepList":
+            return mk_list("DepList", [C["Dep"](True, r.choice(["a", "b", "c"]), r.choice([0, 1, 2, 10]), r.choice([0, 1, 2, 3])) for _ in range(r.choice([0, 1, 2, 3, 5]))])
         if sort == "Child":
             k = r.choice(["CNone", "CInt", "CFloat", "CBoolC", "CNode", "CNode", "CNode", "CSeq", "CSeq", "CBad"] if depth > 0 else ["CNone", "CInt", "CBoolC", "CNode", "CNode", "CBad"])
             if k == "CNone":
@@ -250,7 +254,24 @@ def canon(j, sort):
     return j
 
 
+def user_object_env():
+    """a fixed interpretation of the user callbacks (Env): what the objects with identities 200, 201, 102 expand to.
+    Returned as (python bindings for the executable spec, JSON table for realrun)."""
+    C = {n: c.pyclass for n, c in REG.ctors.items()}
+    dep = C["Md"](C["Dep"](True, "x", 1, 5))
+    e200 = C["TgList"](mk_list("NodeList", [C["Txt"]("exp<&>"), dep, C["El"]("em", False, mk_list("AttrList", []), mk_list("NodeList", [C["Txt"]("i")]))]))
+    e201 = C["TgNode"](C["El"]("section", True, mk_list("AttrList", [("id", C["Plain"]("s"))]), mk_list("NodeList", [C["Raw"]("<hr>")])))
+    e102 = C["TgList"](mk_list("NodeList", []))
+    table = {200: e200, 201: e201, 102: e102}
+    py = {"tagifyOf": lambda oid: table.get(oid, C["TgList"](mk_list("NodeList", []))), "hasTagify": lambda oid: oid in table}
+    js = {str(k): to_json(v.items if type(v).__name__ == "TgList" else v.node) for k, v in table.items()}
+    return py, js
+
+
 def differential(src, c, n=200, seed=0, atoms=None, repo=None, depth=2, extra_requires=()):
+    from .spec import tagify as _tg
+    py_env, js_env = user_object_env()
+    _tg.BIND_T.update(py_env)
     """Run the real function of contract c on n generated inputs satisfying `requires` and compare with
     the executable spec.  Returns (tested, mismatches[list of dict])."""
     g = Gen(seed, atoms)
@@ -264,7 +285,7 @@ def differential(src, c, n=200, seed=0, atoms=None, repo=None, depth=2, extra_re
                 cases.append(vals)
         except RecursionError:
             continue
-    jobs = [call_job(src, c, v, snapshot=bool(c.modifies)) for v in cases]
+    jobs = [call_job(src, c, v, snapshot=bool(c.modifies), expansions=js_env) for v in cases]
     res = run_real(jobs, repo)
     mism = []
     pnames = [p for p, _ in c.params]
